@@ -22,8 +22,8 @@ ASSUMPTIONS = [
     "include_area_zero=True only when every module covers part of some refinable cell (0/0 centroid otherwise)",
     "membership rule judged only when the exact ratio is 0 or >= 1e-9 (decimal coordinates produce exact overlaps of ~1e-17 that the float code legitimately sees as 0); ratios compared with 1e-9",
 ]
-CASES = {"quick": 2500, "thorough": 600000}
-MIN_CASES = {"quick": 600, "thorough": 10000}
+CASES = {"quick": 15000, "thorough": 600000}
+MIN_CASES = {"quick": 3000, "thorough": 10000}
 REQUIRED_COUNTERS = ["hard_modules_relocated_before_allocation", "ratios_compared", "membership_judged", "fixed_cells_checked", "module_areas_compared", "squares_checked",
                      "refine:none", "refine:split", "refine:grid", "zero:on", "zero:off", "full_cover_cells"]
 
